@@ -100,7 +100,8 @@ func refHTTPTarget(rawURL, apiPath, method string) (rid, action string, ok bool)
 		}
 	}
 	rid = strings.Join(segs, ".")
-	if !validRIDRef(rid) || strings.Contains(rid, "?") {
+	// a decoded question mark starts the query, exactly as in a WebSocket rid
+	if !validRIDRef(rid) {
 		return "", "", false
 	}
 	if u.RawQuery != "" {
